@@ -47,6 +47,12 @@ def search(ctx):
     reps = 3 if ctx.tier == "quick" else 40
     mags = [0.0, 1e-9, 1e-4, 0.02, 0.0316, 0.0317, 0.0633, 0.5, 1.5, 2.5, 3.0, 3.1]
     groups = [g for g in common.groups() if g.algebra]
+    from props.C02 import prod_dims
+    pd = prod_dims()
+    for g in common.groups():
+        if g.name in pd:
+            alg, k, _ = pd[g.name]
+            groups.append(common.Group(g.name, g.mod, g.mdim, g.sample, g.pair_ok, algebra=alg, adim=k))
     for g in groups:
         expf = nl.F(g.mod, g.name + ".exp"); logf = nl.F(g.mod, g.name + ".log"); toM = nl.F(g.mod, g.name + ".toMatrix")
         rs = rot_slice(g)
@@ -55,6 +61,12 @@ def search(ctx):
                 x = alg_sample(g, rng, mag)
                 if g.algebra in ("r2", "r3"):
                     x = rng.standard_normal(g.adim) * 3
+                if g.name == "P_MrpR3":
+                    x = rng.standard_normal(6); x[0:3] = nl.rand_axis(rng) * mag
+                elif g.name == "P_SO2R2":
+                    x = rng.standard_normal(3); x[0] = mag
+                elif g.name.startswith("P_SE3Quat"):
+                    x = rng.standard_normal(12); x[3:6] = nl.rand_axis(rng) * mag; x[9:12] = nl.rand_axis(rng) * mag
                 X = np.atleast_1d(expf(x)); ev += 1
                 if g.name == "SO3Euler" and abs(abs(X[1]) - np.pi / 2) < 2e-3:
                     continue
@@ -73,7 +85,12 @@ def search(ctx):
                 if X[-4] > 0:
                     X[-4:] = -X[-4:]
             M = np.atleast_2d(toM(X))
-            R = M[:3, :3] if M.shape[0] >= 3 and g.algebra not in ("r2", "r3", "se2", "so2") else None
+            R = M[:3, :3] if M.shape[0] >= 3 and g.algebra in ("so3", "se3", "se23") else None
+            if g.name.startswith("P_"):
+                # products: skip elements with a rotation factor near pi (checked per factor below via finiteness)
+                y0 = np.atleast_1d(logf(X))
+                if not np.all(np.isfinite(y0)) or np.max(np.abs(y0)) > 3.0:
+                    continue
             if R is not None:
                 ang = np.arccos(np.clip((np.trace(R) - 1) / 2, -1, 1))
                 if ang > np.pi - 0.02:
